@@ -69,7 +69,11 @@ def gen_plan(rng, opts=None):
     devshm = None
     if rng.random() < 0.1 and cap >= 4:
         devshm = rng.randint(max(2, cap // 2), cap - 1)      # configured capacity exceeds what /dev/shm reports
-    return dict(cap=cap, keys=keys, ops=ops, faults=faults, line=rng.random() < 0.7, reuse=o["reuse"], devshm=devshm)
+    timed = []
+    if rng.random() < 0.25:
+        # a purge of the very dataset a disk job is working on, sent the moment the n-th such job starts
+        timed = [[rng.choice(["_page_out", "_page_out", "_page_in"]), rng.randint(1, 3)] for _ in range(rng.choice([1, 1, 2]))]
+    return dict(cap=cap, keys=keys, ops=ops, faults=faults, line=rng.random() < 0.7, reuse=o["reuse"], devshm=devshm, timed_purges=timed)
 
 
 def _payload(key, ci, oi, size):
@@ -471,9 +475,34 @@ def run(plan, ch, want_log=False):
         if len(done) == len(plan["ops"]):
             _drain()
 
+    trig = dict(alive=0, n=0, seen=collections.Counter(), armed=[list(t) for t in plan.get("timed_purges", [])])
+
+    def on_job_start_trigger(pool, fn, args):
+        name = getattr(fn, "__name__", "")
+        trig["seen"][name] += 1
+        for t in trig["armed"]:
+            if t[0] == name and t[1] == trig["seen"][name] and done is not None and len(done) < len(plan["ops"]):
+                key = mon.shmid2key.get(args[0])
+                if key is None:
+                    continue
+                never_purged.discard(key)
+                trig["alive"] += 1
+                trig["n"] += 1
+                K.fire("purge_timed_into_disk_job")
+
+                def go(key=key):
+                    try:
+                        client.ensure()
+                        api_call(client.purge, key)
+                    finally:
+                        trig["alive"] -= 1
+                SimProc(K, f"trig{trig['n']}", root).start(go)
+    K.handlers["pool_job_start"].append(on_job_start_trigger)
+
     def _drain():
         # drain phase: every handle is closed (or its holder is dead), faults have stopped; advance past the staleness windows;
         # then a request for everything that can still be evicted must be granted by the real client's own wait loop
+        K.block(lambda: trig["alive"] == 0, None, "wait_triggers")
         K.fs.plan.clear()
         K.cfg.pop("shm_enomem", None)
         K.sleep(int(16 * 60 * 1e9))
